@@ -82,39 +82,74 @@ Section MemoBounded.
   Variable key : A -> K.
   Variable keqb : K -> K -> bool.
   Variable F : A -> V + E.
-  Variable cap : Z.
 
-  (* the table never exceeds MAX_SIZE (whatever is handed out) *)
-  Lemma mstep_keys_bounded cpy s o :
-    0 <= cap -> Z.of_nat (length (m_keys s)) <= cap ->
-    Z.of_nat (length (m_keys (fst (mstep A K V E key keqb F cap cpy s o)))) <= cap.
+  (* every value MAX_SIZE takes during the history is at most B *)
+  Fixpoint caps_le (B : Z) (ops : list (mop A V)) : Prop :=
+    match ops with
+    | [] => True
+    | SetCap c :: r => c <= B /\ caps_le B r
+    | _ :: r => caps_le B r
+    end.
+
+  (* one step never lets the table grow beyond B >= MAX_SIZE, and never
+     grows a table that is already larger than MAX_SIZE *)
+  Lemma mstep_keys_bounded cpy s o B :
+    m_cap s <= B -> Z.of_nat (length (m_keys s)) <= B ->
+    Z.of_nat (length (m_keys (fst (mstep A K V E key keqb F cpy s o)))) <= B.
   Proof.
-    intros Hc Hb. destruct o as [a|j f]; unfold mstep.
+    intros Hc Hb. destruct o as [a|j f| |c]; unfold mstep.
     - destruct (lookup K keqb (key a) (m_cache s)) as [r|].
       + destruct (hand_out V cpy (m_heap s) r) as [h1 r1]. exact Hb.
       + destruct (F a) as [v|e]; [|exact Hb].
         unfold halloc.
         destruct (hand_out V cpy (m_heap s ++ [(v, true)]) (length (m_heap s))) as [h1 r1].
-        destruct (cap <? Z.of_nat (length (m_keys s ++ [key a]))) eqn:Hlt.
+        destruct (m_cap s <? Z.of_nat (length (m_keys s ++ [key a]))) eqn:Hlt.
         * destruct (m_keys s ++ [key a]) as [|d ks] eqn:Hk.
           -- apply (f_equal (@length K)) in Hk. rewrite app_length in Hk. simpl in Hk. lia.
           -- apply (f_equal (@length K)) in Hk. rewrite app_length in Hk. simpl in *. lia.
         * simpl. lia.
     - destruct (nth_error (m_outs s) j) as [r|]; [|exact Hb].
       destruct (hmodify (m_heap s) r f) as [h1 ok]. exact Hb.
+    - simpl. lia.
+    - exact Hb.
   Qed.
 
-  Lemma bounded_run cpy : forall ops s,
-    0 <= cap -> Z.of_nat (length (m_keys s)) <= cap ->
-    Z.of_nat (length (m_keys (fst (mrun A K V E key keqb F cap cpy s ops)))) <= cap.
+  Lemma mstep_cap cpy s o :
+    m_cap (fst (mstep A K V E key keqb F cpy s o))
+    = match o with SetCap c => c | _ => m_cap s end.
   Proof.
-    induction ops as [|o ops IH]; intros s Hc Hb; [exact Hb|].
-    simpl. pose proof (mstep_keys_bounded cpy s o Hc Hb) as H1.
-    destruct (mstep A K V E key keqb F cap cpy s o) as [s1 r].
-    specialize (IH s1 Hc H1).
-    destruct (mrun A K V E key keqb F cap cpy s1 ops) as [s2 rs]. exact IH.
+    destruct o as [a|j f| |c]; unfold mstep; try reflexivity.
+    - destruct (lookup K keqb (key a) (m_cache s)) as [r|].
+      + destruct (hand_out V cpy (m_heap s) r) as [h1 r1]. reflexivity.
+      + destruct (F a) as [v|e]; [|reflexivity]. unfold halloc.
+        destruct (hand_out V cpy (m_heap s ++ [(v, true)]) (length (m_heap s))) as [h1 r1].
+        destruct (if m_cap s <? Z.of_nat (length (m_keys s ++ [key a]))
+                  then match m_keys s ++ [key a] with
+                       | [] => (m_keys s ++ [key a], m_cache s ++ [(key a, length (m_heap s))])
+                       | delref :: k' =>
+                           (k', remove_key K keqb delref
+                                           (m_cache s ++ [(key a, length (m_heap s))]))
+                       end
+                  else (m_keys s ++ [key a], m_cache s ++ [(key a, length (m_heap s))]))
+          as [k2 c2]. reflexivity.
+    - destruct (nth_error (m_outs s) j) as [r|]; [|reflexivity].
+      destruct (hmodify (m_heap s) r f) as [h1 ok]. reflexivity.
   Qed.
 
+  Lemma bounded_run cpy B : forall ops s,
+    0 <= B -> m_cap s <= B -> caps_le B ops -> Z.of_nat (length (m_keys s)) <= B ->
+    Z.of_nat (length (m_keys (fst (mrun A K V E key keqb F cpy s ops)))) <= B.
+  Proof.
+    induction ops as [|o ops IH]; intros s HB Hc Hcaps Hb; [exact Hb|].
+    simpl. pose proof (mstep_keys_bounded cpy s o B Hc Hb) as H1.
+    pose proof (mstep_cap cpy s o) as H2.
+    destruct (mstep A K V E key keqb F cpy s o) as [s1 r]. cbn [fst] in H1, H2.
+    assert (Hc1 : m_cap s1 <= B).
+    { rewrite H2. destruct o; simpl in Hcaps; try exact Hc. tauto. }
+    assert (Hcaps1 : caps_le B ops) by (destruct o; simpl in Hcaps; tauto).
+    specialize (IH s1 HB Hc1 Hcaps1 H1).
+    destruct (mrun A K V E key keqb F cpy s1 ops) as [s2 rs]. exact IH.
+  Qed.
 End MemoBounded.
 
 (* ---------------------------------------------------------------------- *)
@@ -123,13 +158,12 @@ Section MemoProofs.
   Variable key : A -> K.
   Variable keqb : K -> K -> bool.
   Variable F : A -> V + E.
-  Variable cap : Z.
   Hypothesis keqb_spec : forall x y, keqb x y = true <-> x = y.
   Variable Dom : A -> Prop.
   Hypothesis key_inj : forall a b, Dom a -> Dom b -> key a = key b -> a = b.
 
-  Let step := mstep A K V E key keqb F cap true.
-  Let run := mrun A K V E key keqb F cap true.
+  Let step := mstep A K V E key keqb F true.
+  Let run := mrun A K V E key keqb F true.
 
   Lemma keqb_refl k : keqb k k = true.
   Proof. now apply keqb_spec. Qed.
@@ -166,7 +200,7 @@ Section MemoProofs.
   Definition Inv (s : mstate K V) : Prop :=
     InvC (m_keys s) (m_cache s) (m_heap s) (m_outs s).
 
-  Lemma inv_init : Inv (m_init K V).
+  Lemma inv_init cap : Inv (m_init K V cap).
   Proof.
     constructor; simpl; try tauto; try constructor.
   Qed.
@@ -186,14 +220,14 @@ Section MemoProofs.
   Qed.
 
   Definition op_dom (o : mop A V) : Prop :=
-    match o with Call a => Dom a | Mut _ _ => True end.
+    match o with Call a => Dom a | _ => True end.
 
   Lemma mstep_ok s o :
     Inv s -> op_dom o ->
     Inv (fst (step s o))
     /\ obs V E (snd (step s o)) = Some (spec_op A V E F o).
   Proof.
-    intros HI Hd. destruct HI as [Hk Hn Hs Hp Ho]. destruct o as [a|j f]; simpl in Hd.
+    intros HI Hd. destruct HI as [Hk Hn Hs Hp Ho]. destruct o as [a|j f| |c]; simpl in Hd.
     - (* Call *)
       unfold step, mstep.
       destruct (lookup K keqb (key a) (m_cache s)) as [r|] eqn:Hl.
@@ -204,7 +238,7 @@ Section MemoProofs.
         unfold hand_out. rewrite Hg. unfold halloc. cbn [fst snd].
         pose proof (hget_lt _ _ _ Hg) as Hlt.
         split.
-        * constructor; cbn [m_keys m_cache m_heap m_outs].
+        * constructor; cbn [m_keys m_cache m_heap m_outs m_cap].
           -- exact Hk.
           -- exact Hn.
           -- intros k r' Hin. destruct (Hs _ _ Hin) as (a2 & v2 & ? & ? & ? & Hg2).
@@ -255,7 +289,7 @@ Section MemoProofs.
               apply in_app_or in Hio as [Hio|[Hio|[]]].
               + apply Ho in Hio. lia.
               + subst r'. unfold h0. rewrite app_length; simpl; lia. }
-          destruct (if cap <? Z.of_nat (length (m_keys s ++ [key a]))
+          destruct (if m_cap s <? Z.of_nat (length (m_keys s ++ [key a]))
                     then match m_keys s ++ [key a] with
                          | [] => (m_keys s ++ [key a], m_cache s ++ [(key a, r)])
                          | delref :: k' =>
@@ -264,8 +298,8 @@ Section MemoProofs.
                     else (m_keys s ++ [key a], m_cache s ++ [(key a, r)]))
             as [k2 c2] eqn:Hev.
           cbn [fst snd]. split.
-          -- unfold Inv. cbn [m_keys m_cache m_heap m_outs].
-             destruct (cap <? Z.of_nat (length (m_keys s ++ [key a]))).
+          -- unfold Inv. cbn [m_keys m_cache m_heap m_outs m_cap].
+             destruct (m_cap s <? Z.of_nat (length (m_keys s ++ [key a]))).
              ++ destruct (m_keys s ++ [key a]) as [|d ks] eqn:Hks.
                 ** injection Hev as <- <-. exact Hpre.
                 ** injection Hev as <- <-. now apply inv_evict.
@@ -286,6 +320,16 @@ Section MemoProofs.
           intros ->. now apply (Hp k r).
         * intros r' Hio. rewrite Hh1, hmodify_length. now apply Ho.
       + split; [constructor; assumption|reflexivity].
+    - (* Clear *)
+      unfold step, mstep. cbn [fst snd]. split; [|reflexivity].
+      constructor; cbn [m_keys m_cache m_heap m_outs m_cap].
+      + reflexivity.
+      + constructor.
+      + intros k r [].
+      + intros k r [].
+      + exact Ho.
+    - (* SetCap *)
+      unfold step, mstep. cbn [fst snd]. split; [constructor; assumption|reflexivity].
   Qed.
 
   (* every history: the outputs are those of fresh computations *)
@@ -299,14 +343,14 @@ Section MemoProofs.
     unfold run in *. simpl.
     fold step. destruct (step s o) as [s1 r] eqn:Hs.
     specialize (IH s1 HI' Hd').
-    destruct (mrun A K V E key keqb F cap true s1 ops) as [s2 rs].
+    destruct (mrun A K V E key keqb F true s1 ops) as [s2 rs].
     simpl in *. now rewrite Hobs, IH.
   Qed.
 
-  Lemma history_fresh : forall ops,
+  Lemma history_fresh : forall cap ops,
     Forall op_dom ops ->
-    map (obs V E) (snd (run (m_init K V) ops)) = map (fun o => Some (spec_op A V E F o)) ops.
-  Proof. intros ops Hd. apply history_fresh_from; [apply inv_init|exact Hd]. Qed.
+    map (obs V E) (snd (run (m_init K V cap) ops)) = map (fun o => Some (spec_op A V E F o)) ops.
+  Proof. intros cap ops Hd. apply history_fresh_from; [apply inv_init|exact Hd]. Qed.
 
   Lemma run_inv : forall ops s,
     Inv s -> Forall op_dom ops -> Inv (fst (run s ops)).
@@ -316,15 +360,15 @@ Section MemoProofs.
     destruct (mstep_ok s o HI Ho) as [HI' _].
     unfold run in *. simpl. fold step. destruct (step s o) as [s1 r] eqn:Hs.
     specialize (IH s1 HI' Hd').
-    destruct (mrun A K V E key keqb F cap true s1 ops) as [s2 rs]. exact IH.
+    destruct (mrun A K V E key keqb F true s1 ops) as [s2 rs]. exact IH.
   Qed.
 
   (* _keys and _cache stay in step *)
-  Lemma cache_keys_aligned ops :
+  Lemma cache_keys_aligned cap ops :
     Forall op_dom ops ->
-    map fst (m_cache (fst (run (m_init K V) ops))) = m_keys (fst (run (m_init K V) ops)).
+    map fst (m_cache (fst (run (m_init K V cap) ops))) = m_keys (fst (run (m_init K V cap) ops)).
   Proof.
-    intros Hd. pose proof (run_inv ops _ inv_init Hd) as HI. apply HI.
+    intros Hd. pose proof (run_inv ops _ (inv_init cap) Hd) as HI. apply HI.
   Qed.
 End MemoProofs.
 
@@ -341,40 +385,89 @@ Section Concrete.
     forall c c', wf_sig c = true -> wf_sig c' = true ->
                  md5 (key_new c) = md5 (key_new c') -> key_new c = key_new c'.
   Variable F : sig -> V + E.               (* the undecorated functions *)
-  Variable cap : Z.
 
   Definition sig_dom (o : mop sig V) : Prop :=
-    match o with Call c => wf_sig c = true | Mut _ _ => True end.
+    match o with Call c => wf_sig c = true | _ => True end.
 
-  Lemma cache_history_fresh : forall ops,
+  Lemma cache_history_fresh : forall cap ops,
     Forall sig_dom ops ->
-    map (obs V E) (snd (mrun sig D V E (fun c => md5 (key_new c)) deqb F cap true
-                             (m_init D V) ops))
+    map (obs V E) (snd (mrun sig D V E (fun c => md5 (key_new c)) deqb F true
+                             (m_init D V cap) ops))
     = map (fun o => Some (spec_op sig V E F o)) ops.
   Proof.
-    intros ops Hd.
-    apply (history_fresh sig D V E (fun c => md5 (key_new c)) deqb F cap deqb_spec
+    intros cap ops Hd.
+    apply (history_fresh sig D V E (fun c => md5 (key_new c)) deqb F deqb_spec
                          (fun c => wf_sig c = true)).
     - intros a b Ha Hb He. apply key_new_inj; auto.
-    - eapply Forall_impl; [|exact Hd]. intros [c|j f]; simpl; auto.
+    - eapply Forall_impl; [|exact Hd]. intros [c|j f| |c]; simpl; auto.
   Qed.
 
-  Lemma cache_bounded : forall cpy ops,
-    0 <= cap ->
-    Z.of_nat (length (m_keys (fst (mrun sig D V E (fun c => md5 (key_new c)) deqb F cap cpy
-                                        (m_init D V) ops)))) <= cap.
-  Proof. intros cpy ops Hc. apply bounded_run; simpl; lia. Qed.
+  (* the table never holds more entries than the largest MAX_SIZE in force
+     during the history *)
+  Lemma cache_bounded : forall cpy cap B ops,
+    0 <= B -> cap <= B -> caps_le sig V B ops ->
+    Z.of_nat (length (m_keys (fst (mrun sig D V E (fun c => md5 (key_new c)) deqb F cpy
+                                        (m_init D V cap) ops)))) <= B.
+  Proof. intros cpy cap B ops HB Hc Hcaps. apply bounded_run; simpl; auto; lia. Qed.
+
+  (* sentence 2 of the property for the memoised functions: what the calls
+     return does not depend on the in-place modifications of earlier results *)
+  Definition is_call (o : mop sig V) : bool :=
+    match o with Call _ => true | _ => false end.
+  Definition is_mut (o : mop sig V) : bool :=
+    match o with Mut _ _ => true | _ => false end.
+  Definition call_obs {X} (ops : list (mop sig V)) (outs : list X) : list X :=
+    map snd (filter (fun p => is_call (fst p)) (combine ops outs)).
+  Definition drop_muts (ops : list (mop sig V)) := filter (fun o => negb (is_mut o)) ops.
+
+  Lemma call_obs_map {X} (g : mop sig V -> X) ops :
+    call_obs ops (map g ops) = map g (filter is_call ops).
+  Proof.
+    unfold call_obs. induction ops as [|o ops IH]; [reflexivity|].
+    simpl. destruct (is_call o); simpl; now rewrite IH.
+  Qed.
+
+  Lemma filter_call_drop_muts ops : filter is_call (drop_muts ops) = filter is_call ops.
+  Proof.
+    unfold drop_muts. induction ops as [|o ops IH]; [reflexivity|].
+    destruct o; simpl; now rewrite IH.
+  Qed.
+
+  Lemma cache_calls_independent_of_modifications : forall cap ops,
+    Forall sig_dom ops ->
+    call_obs ops (map (obs V E)
+      (snd (mrun sig D V E (fun c => md5 (key_new c)) deqb F true (m_init D V cap) ops)))
+    = call_obs (drop_muts ops) (map (obs V E)
+        (snd (mrun sig D V E (fun c => md5 (key_new c)) deqb F true (m_init D V cap)
+                   (drop_muts ops)))).
+  Proof.
+    intros cap ops Hd.
+    assert (Hd' : Forall sig_dom (drop_muts ops)).
+    { unfold drop_muts. apply Forall_forall. intros o Ho. apply filter_In in Ho as [Ho _].
+      revert o Ho. now apply Forall_forall. }
+    rewrite (cache_history_fresh cap ops Hd), (cache_history_fresh cap _ Hd').
+    now rewrite !call_obs_map, filter_call_drop_muts.
+  Qed.
 End Concrete.
 
+(* the table can exceed the *current* MAX_SIZE after the value was lowered:
+   a miss evicts one entry only *)
+Lemma bounded_by_current_cap_refuted :
+  exists ops : list (mop Z Z),
+    let s := fst (mrun Z Z Z Z (fun a => a) Z.eqb (fun a => inl a) true (m_init Z Z 3) ops) in
+    m_cap s < Z.of_nat (length (m_keys s)).
+Proof. exists [Call 1; Call 2; Call 3; SetCap 1; Call 4]. vm_compute. reflexivity. Qed.
+
 (* ---------------------------------------------------------------------- *)
-(* Refutations: the unrepaired code                                         *)
+(* Refutations: the unrepaired code (documents the defects repaired by      *)
+(* eb0f8b1; these statements are about code that is no longer in /repo)     *)
 (* ---------------------------------------------------------------------- *)
 (* (a) the cached object itself is handed out: a caller who modifies the
        result in place changes what the next call returns *)
 Lemma alias_refuted :
   exists ops : list (mop Z Z),
-    map (obs Z Z) (snd (mrun Z Z Z Z (fun a => a) Z.eqb (fun a => inl (10 * a)) 100 false
-                             (m_init Z Z) ops))
+    map (obs Z Z) (snd (mrun Z Z Z Z (fun a => a) Z.eqb (fun a => inl (10 * a)) false
+                             (m_init Z Z 100) ops))
     <> map (fun o => Some (spec_op Z Z Z (fun a => inl (10 * a)) o)) ops.
 Proof.
   exists [Call 1; Mut 0 (fun v => v + 1); Call 1]. vm_compute. discriminate.
@@ -388,8 +481,8 @@ Definition F_len (c : sig) : Z + Z :=
 Lemma key_old_refuted :
   exists ops : list (mop sig Z),
     Forall (sig_dom Z) ops /\
-    map (obs Z Z) (snd (mrun sig bytes Z Z key_old beqb F_len 100 true
-                             (m_init bytes Z) ops))
+    map (obs Z Z) (snd (mrun sig bytes Z Z key_old beqb F_len true
+                             (m_init bytes Z 100) ops))
     <> map (fun o => Some (spec_op sig Z Z F_len o)) ops.
 Proof.
   exists [Call w_boundary_1; Call w_boundary_2]. split.
@@ -399,10 +492,11 @@ Qed.
 
 (* non-vacuity: the same history under the repaired key, by computation *)
 Example key_new_history :
-  map (obs Z Z) (snd (mrun sig bytes Z Z key_new beqb F_len 1 true (m_init bytes Z)
+  map (obs Z Z) (snd (mrun sig bytes Z Z key_new beqb F_len true (m_init bytes Z 1)
                            [Call w_boundary_1; Call w_boundary_2; Mut 0 (fun v => v + 1);
-                            Call w_boundary_1; Call w_dtype_1; Call w_dtype_2; Call w_boundary_1]))
-  = [Some (SVal 2); Some (SVal 1); Some SNone; Some (SVal 2); Some (SVal 8); Some (SVal 8);
-     Some (SVal 2)].
+                            Call w_boundary_1; SetCap 5; Call w_dtype_1; Clear; Call w_dtype_2;
+                            Call w_boundary_1]))
+  = [Some (SVal 2); Some (SVal 1); Some SNone; Some (SVal 2); Some SNone; Some (SVal 8);
+     Some SNone; Some (SVal 8); Some (SVal 2)].
 Proof. vm_compute. reflexivity. Qed.
 
